@@ -91,11 +91,12 @@ type input struct {
 	Groups   int        `json:"groups"`
 	Delays   [][]int    `json:"delays"` // per backend: microseconds per SendEvent call, cyclic
 	Compress string     `json:"compress"`
-	Fails    [][]int    `json:"fails"`     // per backend, cyclic per SendEvent call: 0 = nil, 1 = an error, 2 = context.Canceled, 3 = context.DeadlineExceeded
-	UpFaults []int      `json:"up_faults"` // forwarded: fault on the FIRST attempt of the n-th distinct event request, cyclic: 0 none, 1 = 503 after reading the body, 2 = connection closed after reading the body, 3 = slow
-	Overlap  bool       `json:"overlap"`   // WaitForEvents is also called from another goroutine while DispatchEvent calls are in progress
-	TapDelay []int      `json:"tap_delay"` // microseconds the pass-through handler takes per event, cyclic
-	Cancel   int        `json:"cancel"`    // > 0: cancel the dispatch contexts after that many microseconds
+	Fails    [][]int    `json:"fails"`                   // per backend, cyclic per SendEvent call: 0 = nil, 1 = an error, 2 = context.Canceled, 3 = context.DeadlineExceeded
+	UpFaults []int      `json:"up_faults"`               // forwarded: fault on the FIRST attempt of the n-th distinct event request, cyclic: 0 none, 1 = 503 after reading the body, 2 = connection closed after reading the body, 3 = slow
+	NoIntEv  bool       `json:"disable_internal_events"` // server stream: Server.DisableInternalEvents
+	Overlap  bool       `json:"overlap"`                 // WaitForEvents is also called from another goroutine while DispatchEvent calls are in progress
+	TapDelay []int      `json:"tap_delay"`               // microseconds the pass-through handler takes per event, cyclic
+	Cancel   int        `json:"cancel"`                  // > 0: cancel the dispatch contexts after that many microseconds
 }
 
 const unknownID = 2000000
@@ -1024,8 +1025,8 @@ func runServer(in input) hlib.Case {
 		MaxConcurrentEvents:   in.Cap,
 		ReceiveBatchSize:      4,
 		Namespace:             in.NS,
-		StatserType:           gostatsd.StatserNull,
-		DisableInternalEvents: true,
+		StatserType:           gostatsd.StatserInternal,
+		DisableInternalEvents: in.NoIntEv,
 		ServerMode:            "standalone",
 		Viper:                 v,
 	}
@@ -1127,13 +1128,94 @@ func runServer(in input) hlib.Case {
 	nAccepted += len(in.Msgs)
 	swg.Wait()
 	sender.Close()
-	want := int64(nAccepted * in.NB)
-	for i := 0; i < 1500 && atomic.LoadInt64(&sh.rets) < want; i++ {
-		time.Sleep(2 * time.Millisecond)
+	// shutdown while sends are in progress: as soon as every accepted event has STARTED on some backend
+	// (the slow sends and the ones queued behind the semaphore are still owed) the server's context is
+	// cancelled; when Run returns, every event that had started a send or had been answered 202 before
+	// the cancellation must have completed SendEvent on every backend
+	startedIDs := func() map[int]bool {
+		m := map[int]bool{}
+		log.mu.Lock()
+		for _, o := range log.evs {
+			if o.K == "call" && o.E != unknownID {
+				m[o.E] = true
+			}
+		}
+		log.mu.Unlock()
+		return m
+	}
+	if in.NB > 0 {
+		for i := 0; i < 2000 && len(startedIDs()) < nAccepted; i++ {
+			time.Sleep(500 * time.Microsecond)
+		}
+	} else {
+		time.Sleep(5 * time.Millisecond)
+	}
+	owed := startedIDs()
+	for _, m := range in.Msgs {
+		if id := titleID(m.Title); id != unknownID {
+			owed[id] = true
+		}
+	}
+	thi := time.Now().Unix() + 1
+	cancel()
+	returned := false
+	select {
+	case err := <-done:
+		returned = true
+		if err != nil && err != context.Canceled {
+			mon("the server returned %v", err)
+		}
+	case <-time.After(8 * time.Second):
+		mon("the server did not stop within 8 s of cancelling its context")
+	}
+	if returned && in.NB > 0 {
+		rets := map[int]int{}
+		log.mu.Lock()
+		for _, o := range log.evs {
+			if o.K == "ret" {
+				rets[o.E]++
+			}
+		}
+		log.mu.Unlock()
+		short := 0
+		for e := range owed {
+			if rets[e] != in.NB {
+				short++
+				if short == 1 {
+					mon("Server.RunWithCustomSocket returned (disable-internal-events=%v) when event E%d, accepted before the shutdown, had completed %d of its %d sends", in.NoIntEv, e, rets[e], in.NB)
+				}
+			}
+		}
+	}
+	if ca != nil {
+		waitTimeout(ca.wg.Wait, 2*time.Second)
+	}
+	for i := 0; i < 400 && atomic.LoadInt64(&sh.inflight) > 0; i++ { // stragglers, for a complete record
+		time.Sleep(500 * time.Microsecond)
 	}
 	time.Sleep(2 * time.Millisecond)
-	thi := time.Now().Unix()
-	stop()
+	// the server's own start / stop events
+	for b, cb := range caps {
+		cb.mu.Lock()
+		kept := cb.got[:0]
+		internal := map[string]int{}
+		for _, e := range cb.got {
+			if e.Title == "Gostatsd started" || e.Title == "Gostatsd stopped" {
+				internal[e.Title]++
+			} else {
+				kept = append(kept, e)
+			}
+		}
+		cb.got = kept
+		cb.mu.Unlock()
+		wantInt := 1
+		if in.NoIntEv {
+			wantInt = 0
+		}
+		if internal["Gostatsd started"] != wantInt || internal["Gostatsd stopped"] != wantInt {
+			mon("backend %d received %d start and %d stop events of the server itself, expected %d each", b, internal["Gostatsd started"], internal["Gostatsd stopped"], wantInt)
+		}
+	}
 	if m := atomic.LoadInt64(&sh.maxInfl); m > int64(in.Cap) {
 		mon("%d SendEvent calls were in progress at once, max-concurrent-events is %d", m, in.Cap)
 	}
@@ -1401,8 +1483,12 @@ func genCase(r *hlib.Rand, k int) input {
 	}
 	if in.Mode == "server" {
 		// the UDP sender is always 127.0.0.1; posted messages name it, a second known host or none
-		if in.NB == 0 {
-			in.NB = 1
+		in.NoIntEv = r.Bool()
+		// sends slow enough to be still in progress (and queued behind the semaphore) when the
+		// server's context is cancelled and for as long as a shutdown that does not wait would take
+		in.Delays = make([][]int, in.NB)
+		for b := range in.Delays {
+			in.Delays[b] = []int{hlib.Pick(r, []int{6000, 12000}), hlib.Pick(r, []int{3000, 9000})}
 		}
 		in.TapDelay, in.Parsers, in.Groups = nil, 0, 0
 		kinds := []string{"hit-pos", "hit-neg", "miss-pos", "miss-neg"}
